@@ -21,7 +21,14 @@ LEVEL_NOTE = ('Other contexts reached through parent/linked/member '
               'here for each concrete class). Termination of the recursive '
               'constructors and of the parent walk (acyclic chains) is '
               'assumed. Sets of FunctionDefinitions are characteristic '
-              'arrays over an opaque value sort.')
+              'arrays over an opaque value sort. Also under contract: the '
+              'function table of a layer (register / delete over a dict-of-'
+              'sets view, exclusive marks), the composite classes\' '
+              'delegation of register / delete, create_child_context of '
+              'all three classes, the default function name under the '
+              'layer\'s own convention. BOUNDED: random forests driven '
+              'through write histories, compared with a flattened-layers '
+              'reference after every step.')
 
 
 def units(ctx):
